@@ -60,7 +60,7 @@ def last_operator_of(parent):
 
 @contract(IMP + 'run', props=['C02', 'C07', 'C08', 'C12'], name='run_cell_step')
 class run_cell_step:
-    step = 'for icolumn, column in enumerate(row)'
+    step = 'for icolumn, column in'
     assumes = (A_STUBS,)
 
     def inputs(g):
@@ -134,7 +134,7 @@ class run_row_step:
     parents and the nodes of this row are collected from scratch; iff the row was flagged as a measure start (by run_cell_step's
     rule) its stage is appended to the measure index -- exactly once per row -- and the last measure number is the size of the index
     (C07, C19)."""
-    step = 'for row in reader'
+    step = 'for row in'
     assumes = (A_STUBS, 'domain: empty rows and rows of one cell (the column loop is unrolled)')
 
     def inputs(g):
